@@ -50,6 +50,10 @@ def sweeps(ck):
                 o = dict(obs)
                 o.update({'outcome': 'signal', 'fail': [], 'gated': True, 'stderr_tail': ''})
                 found.append((o, V['C10']))
+    from slices import engine as _engine
+    found += _engine.fixed_runs(ck, 'C10', _engine.FAILURE_NEXT_TO_RUNNING,
+                                'a build fails while an independent build is still running and a service is up (requested directly, '
+                                'and behind one aggregate): the exit must leave no process behind')
     return found
 
 
